@@ -42,12 +42,12 @@ def plan(tier):
         [('many-operands', 4 if tier == 'quick' else 12)]
 
 
-def build_many(case):
+def build_many(case, count=None):
     '''N slab cells and the usual "everything else" cell #1 #2 ... #N: one
     flat expression with N operands (plus variants: one long intersection,
     one long union).'''
     rng = case.rng
-    count = [60, 250, 600, 1000][case.index % 4]
+    count = count or [60, 250, 600, 1000][case.index % 4]
     deck = M.Deck(f'C01 many-operands {count}')
     deck.world = 12.0
     width = 12.0 / count
